@@ -5,7 +5,7 @@
    txns_wf: every posting has scale <= 28 and a well-formed account name.
    The theorems are at AST level and hold for every equity account eqa; that the posting line
    written for it is read back as that account needs a grammar-valid name
-   (Equity_spec.eq_account_ok), which Settings::try_from enforces when the equity export is a
+   (Equity_spec.eq_account_ok2), which Settings::try_from enforces when the equity export is a
    target (F20); the check exercises both sides of that condition. *)
 From Coq Require Import Sorted.
 From TkModel Require Import Base Dec Acct Txn Balance Accept Equity.
@@ -77,7 +77,8 @@ Print Assumptions C10_rows_oracle_sound.
 
 (* the equity account of the examples is a name the configuration accepts *)
 Example C10_eq_account_ok_example :
-  eq_account_ok c10_eo = true /\ eq_account_ok [[97]; [32; 98]]%N = false /\ eq_account_ok [[]] = false.
+  eq_account_ok2 c10_eo = true /\ eq_account_ok2 [[97]; [32; 98]]%N = false /\ eq_account_ok2 [[]] = false
+  /\ eq_account_ok [[97; 33; 98]]%N = true /\ eq_account_ok2 [[97; 33; 98]]%N = false.
 Proof. exact eq_account_ok_example. Qed.
 
 (* non-vacuity: transactions out of order, two commodities, an account that cancels to zero;
